@@ -110,6 +110,9 @@ func (e *SpecEnv) intLit(n int64, t types.Type) string {
 
 var typInt = types.Typ[types.Int]
 
+// ghostInt is the type of ghost counters (mathematical integers kept in their own heap H_GInt).
+var ghostInt = types.NewNamed(types.NewTypeName(0, nil, "ghostint", nil), types.Typ[types.Int], nil)
+
 func (e *SpecEnv) eval(x ast.Expr) SVal {
 	g := e.g
 	switch x := x.(type) {
@@ -262,6 +265,21 @@ func (e *SpecEnv) selectField(base SVal, name string) SVal {
 		specFail("field %s of untyped value", name)
 	}
 	addr := base.Addr
+	if _, isIface := t.Underlying().(*types.Interface); isIface {
+		// ghost state attached to the dynamic object behind an interface value
+		off := int64(0)
+		for _, gf := range g.L.ghostOf(t) {
+			if gf.Name == name {
+				a := g.mkptr(pObj(app("if.val", base.S)), g.M.IxLit(off))
+				if at, ok := gf.T.Underlying().(*types.Array); ok {
+					return SVal{T: types.NewArray(ghostInt, at.Len()), Sort: "Ptr", Addr: a, S: a}
+				}
+				return SVal{S: g.loadCell(e.st, a, "GInt"), T: ghostInt, Sort: "GInt", Addr: a}
+			}
+			off += g.L.Size(gf.T)
+		}
+		specFail("no ghost field %s on %v", name, t)
+	}
 	if et, ok := deref(t); ok {
 		addr = base.S
 		t = et
@@ -323,9 +341,11 @@ func (e *SpecEnv) index(base, idx SVal) SVal {
 	}
 	i := e.toIX(idx)
 	if et, ok := deref(t); ok {
-		if at, ok := et.Underlying().(*types.Array); ok {
+		if at, ok := et.Underlying().(*types.Array); ok && !isOpaque(et) {
 			return e.load(g.ptrAdd(base.S, g.M.ixMulC(i, g.L.Size(at.Elem()))), at.Elem())
 		}
+		// C-style pointer indexing p[i]
+		return e.load(g.ptrAdd(base.S, g.M.ixMulC(i, g.L.Size(et))), et)
 	}
 	switch u := t.Underlying().(type) {
 	case *types.Slice:
@@ -353,8 +373,17 @@ func (e *SpecEnv) sliceOf(base SVal, x *ast.SliceExpr) SVal {
 	var ptr, ln, cp string
 	var elem types.Type
 	if et, ok := deref(t); ok {
-		at := et.Underlying().(*types.Array)
-		ptr, ln, cp, elem = base.S, g.M.IxLit(at.Len()), g.M.IxLit(at.Len()), at.Elem()
+		if at, isArr := et.Underlying().(*types.Array); isArr && !isOpaque(et) {
+			ptr, ln, cp, elem = base.S, g.M.IxLit(at.Len()), g.M.IxLit(at.Len()), at.Elem()
+		} else {
+			// C-style pointer to the first of several elements: p[lo:hi] needs an explicit upper bound
+			if x.High == nil {
+				specFail("slicing a pointer needs an upper bound")
+			}
+			ptr, elem = base.S, et
+			ln = e.toIX(e.eval(x.High))
+			cp = ln
+		}
 	} else if st, ok := t.Underlying().(*types.Slice); ok {
 		ptr, ln, cp, elem = app("sl.ptr", base.S), app("sl.len", base.S), app("sl.cap", base.S), st.Elem()
 	} else if at, ok := t.Underlying().(*types.Array); ok {
@@ -642,6 +671,23 @@ func (e *SpecEnv) evalCall(c *ast.CallExpr) SVal {
 		}
 		return SVal{S: sOr(g.M.ixLe(n, g.M.IxLit(0)), sAnd(g.nonNil(ptr), g.M.ixLe(g.M.IxLit(0), pOff(ptr)),
 			g.M.ixLe(g.M.ixAdd(pOff(ptr), g.M.ixMulC(n, es)), app("objsize", pObj(ptr))))), T: bt, Sort: "Bool"}
+	case "nothingAssigned":
+		// every heap (including ghost state) is exactly as in the old state
+		if e.old == nil {
+			specFail("nothingAssigned() needs an old state")
+		}
+		var cs []string
+		for _, h := range g.allHeapNames() {
+			cur, was := h+"@0", h+"@0"
+			if t, ok := e.st.H[h]; ok {
+				cur = t
+			}
+			if t, ok := e.old.H[h]; ok {
+				was = t
+			}
+			cs = append(cs, sEq(cur, was))
+		}
+		return SVal{S: sAnd(cs...), T: bt, Sort: "Bool"}
 	case "unchanged":
 		// unchanged(lvalue): value equals its value in the old state
 		if e.old == nil {
